@@ -36,16 +36,16 @@ def placed (doc tail : Array UInt8) (start fill lim : Nat) : Mem := fun a =>
   else if start - a ≤ 64 then some (prefixPat.getD ((start - a) % 16) 0)
   else some 0
 
-def showSkip : Option (Option SkipRes) → String
+def showSkip (n : Nat) : Option (Option SkipRes) → String
   | none => "FAULT"
   | some none => "unsupported"
   | some (some (.ok s p)) => s!"{s},{p}"
-  | some (some (.err c p)) => s!"-{c},{p}"
+  | some (some (.err c p)) => s!"-{c},{min p n}"   -- decoder.Skip clamps the error position into the input (errors.ClampPos)
 
 def showGetf (doc : Bytes) : Option SkipRes → String
   | none => "FAULT"
   | some (.ok s p) => "ok:" ++ hexArg ((doc.drop s).take (p - s))
-  | some (.err c p) => s!"astsyntax.{c}@{p}"
+  | some (.err c p) => s!"astsyntax.{c}@{min p doc.length}"   -- ast syntaxError clamps the position (clampPos)
 
 /-- alg.Valid (internal/encoder/alg/spec.go:37): empty ⇒ false; validate_one; only blanks may follow -/
 def showValid (doc : Bytes) : Option (Option SkipRes) → String
@@ -73,7 +73,7 @@ def answer (w : Widths) (api : String) (ch0 : UInt8) (m : Mem) (base : Nat) (doc
   let rd := view m base
   if doc.isEmpty then
     (if api == "valid" then some "0" else none)
-  else if api == "skip" then some (showSkip (skipOneScalarValue ch0 w rd doc.length 0))
+  else if api == "skip" then some (showSkip doc.length (skipOneScalarValue ch0 w rd doc.length 0))
   else if api == "valid" then some (showValid doc (skipOneScalarValue ch0 w rd doc.length 0))
   else if api == "getf" then some (showGetf doc (skipOneFast w base rd doc.length 0))
   else none
